@@ -12,6 +12,7 @@ def run(prop, ctx):
     st = {"mutants_run": len(results),
           "breaking_caught": sum(1 for r in results if r[2] == "B" and r[3].startswith("caught")),
           "breaking_total": sum(1 for r in results if r[2] == "B" and r[3] != "skipped"),
+          "breaking_answered_exit2": [r[0] for r in results if r[2] == "B2"],      # seeded defects the targeted check answers with exit 2 (recorded in their meta.json)
           "equivalent_silent": sum(1 for r in results if r[2] == "E" and r[3] == "silent"),
           "equivalent_total": sum(1 for r in results if r[2] == "E" and r[3] != "skipped"),
           "skipped": [r[0] for r in results if r[3] == "skipped"],
